@@ -260,7 +260,7 @@ def psd_range_bounded_instance():
     def make(B):
         return {'lead': B.choose('lead', [(), (3,), (2, 2), (2, 1, 2)]), 'D': B.choose('D', [1, 2, 3, 5, 8]), 'T': B.choose('T', [1, 2, 7, 64]),
                 'K': B.choose('K', [None, None, 1, 2, 5]), 'odt': B.choose('odt', ['c128', 'c128', 'c64', 'f64']),
-                'mdt': B.choose('mdt', ['none', 'f64', 'f64', 'f32', 'bool', 'zero']), 'norm': B.choose('norm', [True, True, False]),
+                'mdt': B.choose('mdt', ['none', 'f64', 'f64', 'f32', 'bool', 'zero', 'zero32', 'partly-zero32']), 'norm': B.choose('norm', [True, True, False]),
                 'order': B.choose('order', ['C', 'F']), 'seed': B.choose('seed', list(range(5000))), 'd': B.given('d', np.zeros(1))}
 
     def call(inp):
@@ -279,6 +279,11 @@ def psd_range_bounded_instance():
             mask = (m > 0.4).astype(np.int64) * 2
         elif mdt == 'zero':
             mask = np.zeros(mshape)
+        elif mdt == 'zero32':
+            mask = np.zeros(mshape, dtype=np.float32)
+        elif mdt == 'partly-zero32':
+            mask = m.astype(np.float32)
+            mask[(0,) * (mask.ndim - 1)] = 0          # one silent source / bin
         else:
             mask = m.astype(np.float32 if mdt == 'f32' else np.float64)
         if inp['order'] == 'F':
@@ -300,7 +305,7 @@ def psd_range_bounded_instance():
         yield 'arguments-untouched', out['untouched']
         if psd.shape != want:
             return
-        tol = 1e-4 if inp['odt'] == 'c64' or inp['mdt'] == 'f32' else 1e-10
+        tol = 1e-4 if inp['odt'] == 'c64' or inp['mdt'] in ('f32', 'partly-zero32') else 1e-10
         ref = np.zeros(want, dtype=complex)
         for li in np.ndindex(*lead):
             for k in range(1 if (K is None or mask is None) else K):
